@@ -19,8 +19,8 @@ ASSUMPTIONS = [
     "W is built from the component values in the state order the model publishes (capacitor dictionary order, then inductor dictionary order)",
     "slack 1e-9*||W A|| for the definiteness test, 1e-9 of the peak energy for monotonicity (lsim is exact for zero input)",
 ]
-N_MODEL = {'quick': 1500, 'thorough': 25000}
-N_SIM = {'quick': 300, 'thorough': 5000}
+N_MODEL = {'quick': 3000, 'thorough': 25000}
+N_SIM = {'quick': 600, 'thorough': 5000}
 
 
 def generate(tier, seed, shard, nshards):
